@@ -880,6 +880,58 @@ Proof.
   rewrite (C6 eq_refl) in H. inversion H; subst. simpl. assumption.
 Qed.
 
+(* logger.Fatal: exactly when a failure is counted while two are already on the count; the count is
+   reset by a failure of an invocation that moved the cursor *)
+Lemma fail_step_fatal_iff : forall s next, s_mode (fail_step s next) = MFatal <-> 2 <= s_tries s.
+Proof.
+  intros s next. unfold fail_step. destruct (N.ltb_spec 2 (s_tries s + 1)); simpl; split; intros H';
+    try lia; try reflexivity; discriminate.
+Qed.
+
+Lemma fail_step_tries : forall s next, s_tries s < 2 ->
+  s_tries (fail_step s next) = if s_inv s <? next then 0 else s_tries s + 1.
+Proof.
+  intros s next H. unfold fail_step. destruct (N.ltb_spec 2 (s_tries s + 1)); [lia|reflexivity].
+Qed.
+
+Lemma step_tries : forall c ch s e s' o, step c ch s e = (s', o) ->
+  s_mode s = MFatal \/ s_tries s <= 2 -> s_mode s' = MFatal \/ s_tries s' <= 2.
+Proof.
+  intros c ch s e s' o H [Hs|Hs].
+  - unfold step in H. rewrite Hs in H. destruct e; inversion H; subst; left; assumption.
+  - assert (Hf : forall s0 next, s_tries s0 = s_tries s ->
+                 s_mode (fail_step s0 next) = MFatal \/ s_tries (fail_step s0 next) <= 2).
+    { intros s0 next E. unfold fail_step. rewrite E.
+      destruct (N.ltb_spec 2 (s_tries s + 1)); simpl; [now left|right].
+      destruct (s_inv s0 <? next); lia. }
+    unfold step in H.
+    destruct (s_mode s) eqn:M; destruct e as [| |h fs| | |];
+      try (inversion H; subst; simpl; right; assumption);
+      try (inversion H; subst; apply Hf; reflexivity).
+    destruct (h <? follow c); [inversion H; subst; right; assumption|].
+    destruct (h - follow c <? s_cur s); [inversion H; subst; right; assumption|].
+    destruct (fetch c ch (s_cur s) (h - follow c) fs) as [[qs es] r].
+    destruct r as [|[| |]|]; inversion H; subst; simpl;
+      try (right; assumption); apply Hf; reflexivity.
+Qed.
+
+Lemma run_tries : forall c ch evs s s' o, run c ch s evs = (s', o) ->
+  s_mode s = MFatal \/ s_tries s <= 2 -> s_mode s' = MFatal \/ s_tries s' <= 2.
+Proof.
+  intros c ch. induction evs as [|e tl IH]; intros s s' o H Hs; simpl in H.
+  - inversion H; subst. assumption.
+  - destruct (step c ch s e) as [s1 o1] eqn:S1.
+    destruct (run c ch s1 tl) as [s2 o2] eqn:R2. inversion H; subst.
+    eapply IH; [exact R2|]. eapply step_tries; eassumption.
+Qed.
+
+Lemma stream_tries : forall c ch from evs s out, stream c ch from evs = (s, out) ->
+  s_mode s = MFatal \/ s_tries s <= 2.
+Proof.
+  intros c ch from evs s out H. unfold stream in H. eapply run_tries; [exact H|].
+  right. simpl. lia.
+Qed.
+
 (* nothing is delivered once the stream has ended *)
 Lemma run_ended : forall c ch evs s, s_mode s = MDone \/ s_mode s = MFatal ->
   entries_of (snd (run c ch s evs)) = [] /\ fst (run c ch s evs) = s.
